@@ -195,6 +195,13 @@ func c10Leaf(x *mc.Exec) {
 }
 
 // relationship leaves: to-one (=, !=, in) and to-many (=, !=, has, never ordered)
+func c10CloneList(l []string) []string {
+	if l == nil {
+		return nil
+	}
+	return append([]string{}, l...)
+}
+
 func c10Rel(x *mc.Exec) {
 	soft := x.Choose(2, "impl") == 0
 	impl := "wrap"
@@ -203,7 +210,8 @@ func c10Rel(x *mc.Exec) {
 	}
 	d := TypeD{Name: "t", Rels: []RelD{{"one", true, "t", ""}, {"many", false, "t", ""}}}
 	ids := []string{"", "a", "b", "ab"}
-	lists := [][]string{{}, {"a"}, {"b"}, {"a", "b"}, {"b", "a"}, {"a", "b", "c"}, {"c", "b", "a"}, {"a", "c"}, {"ab"}}
+	// nil: a to-many field never assigned (struct) / a nil list given as the filter value
+	lists := [][]string{nil, {}, {"a"}, {"b"}, {"a", "b"}, {"b", "a"}, {"a", "b", "c"}, {"c", "b", "a"}, {"a", "c"}, {"ab"}}
 	asSet := func(l []string) map[string]bool {
 		m := map[string]bool{}
 		for _, s := range l {
@@ -220,7 +228,7 @@ func c10Rel(x *mc.Exec) {
 					res.Set("one", rv)
 					var got bool
 					p := Try(func() {
-						got = (&j.Filter{Field: "one", Op: "in", Val: append([]string{}, fl...)}).IsAllowed(res)
+						got = (&j.Filter{Field: "one", Op: "in", Val: c10CloneList(fl)}).IsAllowed(res)
 					})
 					x.R.Add("transitions", 1)
 					want := asSet(fl)[rv]
@@ -257,7 +265,7 @@ func c10Rel(x *mc.Exec) {
 			if op == "has" {
 				for _, id := range ids {
 					res := d.NewRes(soft)
-					res.Set("many", append([]string{}, rl...))
+					res.Set("many", c10CloneList(rl))
 					var got bool
 					p := Try(func() { got = (&j.Filter{Field: "many", Op: "has", Val: id}).IsAllowed(res) })
 					x.R.Add("transitions", 1)
@@ -271,10 +279,10 @@ func c10Rel(x *mc.Exec) {
 			}
 			for _, fl := range lists {
 				res := d.NewRes(soft)
-				res.Set("many", append([]string{}, rl...))
+				res.Set("many", c10CloneList(rl))
 				var got bool
 				p := Try(func() {
-					got = (&j.Filter{Field: "many", Op: op, Val: append([]string{}, fl...)}).IsAllowed(res)
+					got = (&j.Filter{Field: "many", Op: op, Val: c10CloneList(fl)}).IsAllowed(res)
 				})
 				x.R.Add("transitions", 1)
 				same := reflect.DeepEqual(asSet(rl), asSet(fl))
@@ -411,7 +419,7 @@ func c10Tree(x *mc.Exec) {
 func init() {
 	Register(&Prop{
 		ID: "C10",
-		Rule: "Engine A, all choices Full: (28 kinds x {soft,wrapped} x 8 operators x all ordered pairs of the kind's boundary alphabet incl. nil) + relationship leaves (to-one =,!=,in; to-many =,!=,has,order ops) + every and/or tree of depth<=2 and fan-out<=2 (thorough: fan-out<=3) over a true and a false leaf; " +
+		Rule: "Engine A, all choices Full: (28 kinds x {soft,wrapped} x 8 operators x all ordered pairs of the kind's boundary alphabet incl. nil) + relationship leaves (to-one =,!=,in; to-many =,!=,has,order ops over 10 lists incl. nil on either side) + every and/or tree of depth<=2 and fan-out<=2 (thorough: fan-out<=3) over a true and a false leaf; " +
 			"+ one Filter value reused over 3 steps with its value reassigned or edited in place (all sequences over 7 ID lists), compared with fresh filters; oracle = independent evaluator (math/big, bytes.Compare, time.Before) plus trichotomy/complement/<= laws; a leaf case is non-trivial when the two values differ or one is nil, a tree when it has at least one operator node",
 		Assumptions: []string{"well-typed filters only: the filter value has the Go type of the attribute (pointer, possibly typed nil, for nullable kinds)", "ordering of to-one IDs is not judged (statement silent)"},
 		Harnesses: []Harness{
